@@ -122,7 +122,18 @@ def run_ip(fields):
     return "BADCMD"
 
 
-DISPATCH = {"base": run_ip, "ip4": run_ip, "ip6": run_ip}
+def run_jun(fields):
+    from netconan.utils import juniper_secrets as js
+
+    try:
+        if fields[0] == "jenc":
+            return "OK:" + js.juniper_nonrandom_encrypt(fields[1], fields[2])
+        return "OK:" + js.juniper_decrypt(fields[1])
+    except Exception as e:  # noqa
+        return type(e).__name__
+
+
+DISPATCH = {"base": run_ip, "ip4": run_ip, "ip6": run_ip, "jenc": run_jun, "jdec": run_jun}
 
 
 def main():
